@@ -121,6 +121,25 @@ class SM:
             terms.append(t if j % 2 == 0 else -t)
         return sum_(terms)
 
+    def det_leibniz(self):
+        """sum over permutations of sign * product (flat monomials)"""
+        import itertools
+        n = self.n
+        terms = []
+        for perm in itertools.permutations(range(n)):
+            inv = sum(1 for a in range(n) for b in range(a + 1, n) if perm[a] > perm[b])
+            t = self.e[0][perm[0]]
+            for i in range(1, n):
+                t = t * self.e[i][perm[i]]
+            terms.append((inv % 2, t))
+        r = None
+        for sgn, t in terms:
+            if r is None:
+                r = t if sgn == 0 else -t
+            else:
+                r = r + t if sgn == 0 else r - t
+        return r
+
     def adj(self):
         n = self.n
 
